@@ -1634,6 +1634,123 @@ PLAN = {
 WALL_CAP = {"quick": 85, "thorough": 540}
 
 
+# ---------------------------------------------------------------------------------------------
+# two fixed-shape units next to the edit graph
+
+NESTED_INNER = """    #[diplomat::bridge]
+    pub mod ffi {
+        #[diplomat::opaque]
+        pub struct C14Engine(pub u8);
+        pub struct C14Pair { pub a: u8, pub b: u32 }
+        pub enum C14Kind { A, B }
+        impl C14Engine {
+            pub fn new_engine(v: u8) -> Box<C14Engine> { Box::new(C14Engine(v)) }
+            pub fn pair(&self, k: C14Kind) -> C14Pair { let _ = k; C14Pair { a: 0, b: 0 } }
+        }
+    }
+"""
+# attributes on the ordinary (non-bridge) module that encloses the bridge module: code outside the bridge has no influence
+NESTED_OUTER_ATTRS = {
+    "rename": '#[diplomat::attr(*, rename = "Vendor{0}")]',
+    "namespace": '#[diplomat::attr(*, namespace = "vendor")]',
+    "disable": "#[diplomat::attr(*, disable)]",
+    "abi_rename": '#[diplomat::abi_rename = "vendor_{0}"]',
+    "opaque+out": "#[diplomat::opaque]\n#[diplomat::out]",
+    "cfg-attr-mix": '#[diplomat::attr(not(kotlin), rename = "V{0}")]\n#[diplomat::attr(any(cpp, js, dart), disable)]',
+}
+
+
+def nested_bridge_unit(rep, wd):
+    def prog(attr):
+        return "%spub mod api {\n%s}\n" % ((attr + "\n") if attr else "", NESTED_INNER)
+
+    def one(job):
+        b, tag, attr = job
+        d = os.path.join(wd, "nested-%s-%s" % (b, re.sub(r"\W", "_", tag)))
+        os.makedirs(d, exist_ok=True)
+        src = os.path.join(d, "lib.rs")
+        with open(src, "w") as fh:
+            fh.write(prog(attr))
+        p = run_tool(b, src, os.path.join(d, "out"), configs=list(default_configs(b)), timeout=300)
+        tree = read_tree(os.path.join(d, "out")) if p.returncode == 0 else None
+        shutil.rmtree(d, ignore_errors=True)
+        return b, tag, p.returncode, p.stderr[-600:], tree
+    jobs = [(b, tag, attr) for b in BACKENDS for tag, attr in [("base", None)] + sorted(NESTED_OUTER_ATTRS.items())]
+    res = {(b, tag): (rc, err, tree) for b, tag, rc, err, tree in pmap(one, jobs)}
+    n = 0
+    for b in BACKENDS:
+        rc0, err0, t0 = res[(b, "base")]
+        if rc0 != 0 or not t0:
+            raise MachineryError("backend %s does not accept the nested-bridge base program: %s" % (b, err0))
+        if not any("C14Engine" in k for k in t0):
+            raise MachineryError("vacuity guard: %s generated nothing for the bridge module nested in an ordinary module" % b)
+        for tag in sorted(NESTED_OUTER_ATTRS):
+            rc, err, t = res[(b, tag)]
+            n += 1
+            if rc != rc0 or t != t0:
+                diff = sorted(k for k in set(t or {}) | set(t0) if (t or {}).get(k) != t0.get(k))
+                rep.violation("C14|nonbridge-parent-module-attribute|%s|%s" % (tag, b),
+                              {"backend": b, "outer_attribute": NESTED_OUTER_ATTRS[tag], "program": prog(NESTED_OUTER_ATTRS[tag]), "exit": rc, "stderr": err,
+                               "differing_files": diff[:20]},
+                              "attribute `%s` on the ordinary module enclosing a bridge module changes the %s output (exit %s; files %s)" % (
+                                  NESTED_OUTER_ATTRS[tag].replace("\n", " "), b, rc, diff[:6]))
+    return n
+
+
+CFG_BRIDGE = """#[diplomat::bridge]
+mod ffi {
+    #[diplomat::opaque]
+    pub struct Op(u8);
+    pub struct Holder { pub a: u8 }
+    impl Holder {
+        pub fn run(f: impl Fn(&Op) -> u8) -> u8 { let _ = f; 0 }
+    }
+}
+"""
+CFG_RUNS = {"quick": 8, "thorough": 24}
+
+
+def scoped_config_unit(rep, wd, tier):
+    """a config file giving the same shared keys a different value under every language's table: whichever table applies, the outcome
+    must be the same in every fresh process (the tool keeps the overrides in a hash map)"""
+    langs = ["c", "cpp", "js", "dart", "kotlin", "nanobind", "demo_gen"]
+
+    def cfg(target, on):
+        out = []
+        for l in langs:
+            v = on if l == target else (not on)
+            out.append('[%s]\nunsafe-references-in-callbacks = %s\nlib-name = "lib%s%d"\n' % (l.replace("_", "-") if l == "demo_gen" else l, "true" if v else "false", l.replace("_", ""), int(v)))
+        out.append('[kotlin]\ndomain = "dev.verif"\n' if False else "")
+        return "\n".join(out)
+
+    def one(job):
+        b, on, k = job
+        d = os.path.join(wd, "cfg-%s-%d-%d" % (b, int(on), k))
+        os.makedirs(d, exist_ok=True)
+        src, cf = os.path.join(d, "lib.rs"), os.path.join(d, "config.toml")
+        open(src, "w").write(CFG_BRIDGE)
+        open(cf, "w").write(cfg(b, on))
+        p = run_tool(b, src, os.path.join(d, "out"), config_file=cf, configs=["kotlin.domain=dev.verif"] if b == "kotlin" else [], timeout=300)
+        tree = read_tree(os.path.join(d, "out")) if os.path.isdir(os.path.join(d, "out")) else {}
+        shutil.rmtree(d, ignore_errors=True)
+        err = re.sub(r"thread 'main' \(\d+\)", "thread 'main'", p.stderr)
+        return b, on, (p.returncode, err[-800:], sha(json.dumps(sorted((k2, sha(v)) for k2, v in tree.items()))))
+    jobs = [(b, on, k) for b in langs for on in (True, False) for k in range(CFG_RUNS[tier])]
+    by = {}
+    for b, on, o in pmap(one, jobs):
+        by.setdefault((b, on), []).append(o)
+    acc = {(b, on): sum(1 for rc, e, _ in obs if "Callbacks cannot take references" not in e) for (b, on), obs in by.items()}
+    if not any(acc[(b, True)] for b in langs) or all(acc[(b, False)] == len(by[(b, False)]) for b in langs):
+        raise MachineryError("vacuity guard: the per-language unsafe-references-in-callbacks tables make no difference to any backend")
+    for (b, on), obs in sorted(by.items()):
+        if len(set(obs)) != 1:
+            kinds = sorted(set((rc, e.strip().splitlines()[-1][:100] if e.strip() else "") for rc, e, _ in obs))
+            rep.violation("C14|config-overrides-nondeterministic|%s" % b,
+                          {"backend": b, "config_toml": cfg(b, on), "bridge": CFG_BRIDGE, "distinct_outcomes": [list(k) for k in kinds], "runs": len(obs)},
+                          "%d fresh runs of %s on one input with per-language tables in config.toml give %d different outcomes: %s" % (len(obs), b, len(set(obs)), kinds))
+    return len(jobs)
+
+
 def run(tier):
     rep = Reporter("C14", tier, "model_checking")
     build_tool()
@@ -1663,6 +1780,8 @@ def run(tier):
         per_seed[name] = {"depth": len(opts_by_depth), "alphabet_by_depth": [o or "FULL" for o in opts_by_depth],
                           "states": len(ex.nodes) - before[0], "edit_applications": ex.edges - before[1],
                           "wall_s": round(time.time() - t0, 1)}
+    nested_n = nested_bridge_unit(rep, wd)
+    cfg_n = scoped_config_unit(rep, wd, tier)
     shutil.rmtree(wd, ignore_errors=True)
     ex.assert_tool_unchanged()
     n_states = len(ex.nodes)
@@ -1684,6 +1803,8 @@ def run(tier):
                   "insert_alphabet": {"kinds": INSERT_KINDS, "name_positions": INSERT_POS}, "nonbridge_alphabet": NONBRIDGE_KINDS,
                   "aggregate_files_seen_changing": {b: sorted(v) for b, v in sorted(ex.agg_seen.items())},
                   "edge_differences_attributed_to_rerun_instability": ex.suppressed,
+                  "nested_bridge_unit": {"comparisons": nested_n, "outer_attributes": sorted(NESTED_OUTER_ATTRS)},
+                  "scoped_config_unit": {"fresh_runs": cfg_n, "runs_per_backend_and_config": CFG_RUNS[tier]},
                   "wall_cap_s": WALL_CAP[tier], "cut_short_by_wall_cap": ex.truncated,
                   "states_not_accepted_by_a_backend_after_insert_or_delete": ex.not_accepted[:20]},
         "samples": ex.samples[:8],
@@ -1708,9 +1829,24 @@ def run(tier):
 
 
 def replay(path):
-    w = json.load(open(path))["witness"]
+    doc = json.load(open(path))
+    w = doc["witness"]
     build_tool()
     wd = workdir("C14-replay")
+    if doc["key"].startswith(("C14|nonbridge-parent-module-attribute|", "C14|config-overrides-nondeterministic|")):
+        # fixed-shape units: run them again as a whole, the same key must come back
+        class _R:
+            keys = []
+
+            def violation(self, key, witness, what):
+                self.keys.append(key)
+                print("VIOLATION %s: %s" % (key, what))
+        r = _R()
+        nested_bridge_unit(r, wd)
+        scoped_config_unit(r, wd, "thorough")
+        shutil.rmtree(wd, ignore_errors=True)
+        print("still failing" if doc["key"] in r.keys else "no longer failing")
+        return 1 if doc["key"] in r.keys else 0
     b = w["backend"]
     cfgfile = None
     if w.get("config_file"):
